@@ -57,6 +57,9 @@ fn check_lite(rep: &mut Report, c: &Case, lite: Block, origin: &str) {
         "merged-placeholders"
     };
     rep.count(&format!("class.{}", class));
+    if full.transactions.iter().any(|t| t.from.iter().any(|s| c.keys.contains(&s.public_key)) && !t.to.iter().any(|s| c.keys.contains(&s.public_key))) {
+        rep.count("blocks_with_a_listed_key_on_the_input_side_only");
+    }
     rep.nontrivial(&format!("{}|{}|{}", n, c.pattern, c.keys.len()));
     let witness = json!({
         "kind": "lite",
@@ -289,12 +292,13 @@ async fn make_block(b: &mut Builder, rng: &mut Rng, parent: &Hash, n: usize, pat
         } else {
             (others[i % others.len()], others[(i + 1) % others.len()])
         };
-        let tx = b
-            .payment(rng, parent, from, to, 10 + i as u64, 3, &mut exclude)
-            .or_else(|| {
-                // payer ran out of outputs: any other non-light payer will do for an untouched tx
-                None
-            })?;
+        // every second payment of the light client spends a whole output: its key is then on the
+        // input side only (no change output that would make the transaction "pay to" it as well)
+        let tx = if touch && from == light && i % 4 == 1 {
+            b.payment_all(rng, parent, from, to, 3, &mut exclude)?
+        } else {
+            b.payment(rng, parent, from, to, 10 + i as u64, 3, &mut exclude)?
+        };
         txs.push(tx);
     }
     if n == 0 && !with_gt {
